@@ -405,15 +405,30 @@ fn tag_line() -> impl Strategy<Value = Line> {
         3 => (0..names.len()).prop_map(move |i| names[i].to_string()),
         1 => prop_oneof![Just("MUSICBRAINZ_RELEASEGROUPID"), Just("Mood"), Just("TitleSort"), Just("ShowMovement"), Just("time"), Just("pos")].prop_map(str::to_string),
         1 => "[A-Z][a-z]{3,8}".prop_filter("not reserved", |s| !RESERVED.contains(&s.as_str()) && canonical_or_unknown(s)),
-    ];
+    ]
+    .prop_map(|n| (n, true));
+    // an attribute name with the letter case of ONE letter flipped is an ordinary (unknown) tag:
+    // attribute names are case-sensitive (`Last-modified`, `File`, `duratioN`, ...)
+    let near_miss = (0..9usize, any::<u16>()).prop_filter_map("flip gives a reserved name", |(i, at)| {
+        let base = ["file", "duration", "Time", "Range", "Format", "Last-Modified", "Prio", "Pos", "Id"][i];
+        let letters: Vec<usize> = base.char_indices().filter(|(_, c)| c.is_ascii_alphabetic()).map(|(j, _)| j).collect();
+        let j = letters[crate::core::pick_idx(at, letters.len())];
+        let mut b = base.as_bytes().to_vec();
+        b[j] ^= 0x20;
+        let s = String::from_utf8(b).unwrap();
+        (!RESERVED.contains(&s.as_str())).then_some((s, false))
+    });
+    let name = prop_oneof![12 => name, 1 => near_miss];
     // servers other than MPD may spell known tags in another letter case; the crate parses them
     // case-insensitively, so they belong to the same tag
-    (name, text(), 0..12u8).prop_map(|(k, v, recase)| {
+    (name, text(), 0..12u8).prop_map(|((k, may_recase), v, recase)| {
         let k = match recase {
-            0 => k.to_lowercase(),
-            1 => k.to_uppercase(),
+            0 if may_recase => k.to_lowercase(),
+            1 if may_recase => k.to_uppercase(),
             _ => k,
         };
+        // recasing must not turn a tag name into an attribute name (`File` -> `file`)
+        let k = if RESERVED.contains(&k.as_str()) { format!("{k}x") } else { k };
         Line::Tag(k, v)
     })
 }
